@@ -99,7 +99,7 @@ def gen_case(g):
         nvrnt = int(g.choice([4097, 8193, 9000]))          # beyond internal block sizes of a vectorised meiosis
     nchr = int(g.integers(1, 5))
     codes = ["unique", "unique", "unique", "01", "int8"][int(g.integers(5))]
-    xomode = ["zero", "half", "mixed", "mixed", "random", "haldane"][int(g.integers(6))]
+    xomode = ["zero", "half", "mixed", "mixed", "random", "haldane", "wide"][int(g.integers(7))]
     hap = g.random() < 0.15
     grouped = g.random() < 0.75
     pg = pop.make_pgmat(g, ntaxa, nvrnt, nchr, codes=codes, xomode=xomode, optional=g.random() < 0.8, hap=hap,
@@ -294,7 +294,13 @@ def one_case(ctx, c):
         ctx.sample({"protocol": name, "ntaxa": pg.ntaxa, "nvrnt": pg.nvrnt, "xconfig": k["xc"].tolist(),
                     "nmating": numpy.asarray(k["nmating"]).tolist(), "nprogeny": numpy.asarray(k["nprogeny"]).tolist(), "nself": k["nself"],
                     "codes": k["codes"], "xoprob": k["xomode"], "rng": k["rcls"]})
-    proto = proto_class(name)(progeny_counter=k["pc"], family_counter=k["fc"], rng=k["rng"])
+    if g.random() < 0.4:   # documented positional order of every protocol constructor: (progeny_counter, family_counter, rng)
+        proto = proto_class(name)(k["pc"], k["fc"], k["rng"]); icls += "/positional constructor arguments"
+    else:
+        proto = proto_class(name)(progeny_counter=k["pc"], family_counter=k["fc"], rng=k["rng"])
+    ctx.check("C01.meta.counters", proto.progeny_counter == k["pc"] and proto.family_counter == k["fc"], name + ".__init__",
+              "constructor sets the progeny and family counters it was given", icls,
+              witness={"protocol": name, "given": [k["pc"], k["fc"]], "got": [proto.progeny_counter, proto.family_counter]}, coords=coords)
     out = check_call(ctx, name, k["prefix"], proto, pg, k["xc"], k["nmating"], k["nprogeny"], k["nself"], k["codes"], icls, coords, k["tot"])
     if out is not None and g.random() < 0.3 and k["tot"] > 0:
         # counter continuity and ownership of results: later calls on the same long-lived protocol object (same shapes, then
